@@ -18,7 +18,8 @@ ATTRS = K.Map(K.Str, K.Opt(VAL))
 FTYPE = K.Atom('FieldType')
 
 
-def declare_signature_classes(w):
+def declare_signature_classes(w, related_kind=None):
+    related_kind = related_kind or K.Opt(K.Str)
     w.kinds.update({'Str': K.Str, 'Ref_App': K.Ref('AppSignature'), 'Ref_Model': K.Ref('ModelSignature'),
                     'Ref_Field': K.Ref('FieldSignature'), 'Ref_Project': K.Ref('ProjectSignature')})
     w.exc('EvolutionException')
@@ -26,7 +27,7 @@ def declare_signature_classes(w):
     w.exc('SimulationFailure', 'EvolutionException')
     w.exc('CannotSimulate', 'EvolutionException')
     w.cls('FieldSignature', {'field_name': K.Str, 'field_type': FTYPE, 'field_attrs': ATTRS,
-                             'related_model': K.Opt(K.Str)}, module=SIG)
+                             'related_model': related_kind}, module=SIG)
     w.cls('ModelSignature', {'model_name': K.Str, 'table_name': K.Opt(K.Str),
                              '_field_sigs': K.Map(K.Str, K.Ref('FieldSignature'))}, module=SIG)
     w.cls('AppSignature', {'app_id': K.Str, 'legacy_app_label': K.Opt(K.Str),
@@ -125,7 +126,8 @@ def is_m2m(it, ft):
 
 def build():
     w = World('sigsim')
-    declare_signature_classes(w)
+    # here a relation target is an opaque attribute value (ChangeField moves it between field_attrs and related_model)
+    declare_signature_classes(w, related_kind=K.Opt(VAL))
     declare_accessors(w, ['C12'])
     declare_simulation(w, ['C12'])
     w.spec_funcs['is_m2m'] = is_m2m
@@ -218,6 +220,7 @@ def build():
         note='unique_together rewriting abstracted away (Meta bookkeeping)')
 
     add_gate(w)
+    add_small(w)
     fam = Family('contracts.sigsim', w)
     fam.replay['ChangeField.simulate'] = replay_change_field_simulate
     fam.replay['AddField.simulate'] = replay_add_field_simulate
@@ -233,7 +236,7 @@ def build():
 def add_gate(w):
     """Command._check_simulation and the gate in Command.handle."""
     w.exc('CommandError')
-    w.cls('Diff', {})
+    w.cls('Diff', {'changed': K.Map(K.Str, K.Atom('AppChange')), 'deleted': K.Seq(K.Str)}, module='django_evolution/diff.py')
     w.cls('EvolverG', {'hinted': K.Bool})
     w.cls('OutStream', {})
     w.cls('Style', {})
@@ -242,8 +245,6 @@ def add_gate(w):
     w.stub('EvolverG.can_simulate', params={'self': K.Ref('EvolverG')}, returns=K.Bool, pure=True)
     w.stub('EvolverG.diff_evolutions', params={'self': K.Ref('EvolverG')}, returns=K.Ref('Diff'), pure=True,
            note='Diff(simulated signature, signature of the current models)')
-    w.stub('Diff.is_empty', params={'self': K.Ref('Diff'), 'ignore_apps': K.Bool}, returns=K.Bool, pure=True,
-           note='C05/C15 cover is_empty itself')
     w.stub('OutStream.write', params={'self': K.Ref('OutStream'), 'msg': None})
     w.stub('Style.NOTICE', params={'self': K.Ref('Style'), 'msg': None}, returns=K.Str, pure=False)
     w.stub('Command._wrap_paragraphs', params={'self': K.Ref('Command'), 'text': None}, returns=K.Str)
@@ -257,6 +258,40 @@ def add_gate(w):
         ensures=[
             'iff(result, self.evolver.can_simulate())',
             'implies(result, self.evolver.diff_evolutions().is_empty(not self.purge))'])
+
+
+def add_small(w):
+    """Small functions on the C12 / C13 / C15 paths."""
+    EVOLVER = 'django_evolution/evolve/evolver.py'
+    PURGE = 'django_evolution/evolve/purge_app_task.py'
+    DIFF = 'django_evolution/diff.py'
+    PH = 'django_evolution/placeholders.py'
+    w.cls('TaskS', {'can_simulate': K.Bool, 'evolution_required': K.Bool})
+    w.cls('Evolver', {'_tasks_by_id': K.Map(K.Str, K.Ref('TaskS'))}, module=EVOLVER,
+          views={'tasks': ('_tasks_by_id', 'values')})
+    w.contract(
+        'Evolver.can_simulate', module=EVOLVER, serves=['C12'],
+        params={'self': K.Ref('Evolver')}, returns=K.Bool,
+        ensures=['result == forall(self._tasks_by_id, lambda k: self._tasks_by_id[k].can_simulate or '
+                 '                 not self._tasks_by_id[k].evolution_required)'],
+        note='self.tasks modelled as the values of _tasks_by_id (the property also prepares the tasks: see C12 effect obligation)')
+    w.contract(
+        'Evolver.get_evolution_required', module=EVOLVER, serves=['C12'],
+        params={'self': K.Ref('Evolver')}, returns=K.Bool,
+        ensures=['result == exists(self._tasks_by_id, lambda k: self._tasks_by_id[k].evolution_required)'])
+    w.contract(
+        'Diff.is_empty', module=DIFF, serves=['C12', 'C15'],
+        params={'self': K.Ref('Diff'), 'ignore_apps': K.Bool}, defaults={'ignore_apps': True}, returns=K.Bool, pure=True,
+        ensures=[
+            # deleted (no longer installed) apps only count when the caller asks for them (i.e. with --purge)
+            'result == (len(self.changed) == 0 and (ignore_apps or len(self.deleted) == 0))'])
+    w.exc('EvolutionException')
+    w.cls('NullFieldInitialCallback', {'app_label': K.Str, 'model_name': K.Str, 'field_name': K.Str}, module=PH)
+    w.contract(
+        'NullFieldInitialCallback.__call__', module=PH, serves=['C13'],
+        params={'self': K.Ref('NullFieldInitialCallback')},
+        raises={'EvolutionException': True}, ensures=['False'],
+        note='the placeholder for a user-supplied initial value refuses to run: it never returns')
 
 
 def syn_run_mutation():
